@@ -186,4 +186,18 @@ CHECKS = {
               'in place (checked by the reload comparison on generated histories).'),
         note=COMMON_NOTE + 'File-system abstraction: os.replace atomic, a crash loses at most a suffix of what was written to the open file; process crash, not power loss (no fsync ordering). time.monotonic assumed to keep running across the restart.',
         technique='Lean 4 theorems (case analysis over crash prefixes, induction over operation histories); traced-syscall correspondence; restart equivalence and crash injection on the real code'),
+    'C16': dict(
+        text=('Proof (tier 3, keeper as a timed function). Props/C16.lean over the model of ESME._connection_keeper as a function '
+              'from its (re)start time and the arrival times of inbound PDUs to the times enquire_link is sent and the time it gives '
+              'up, for arbitrary interval I and time-out T: an enquire_link goes out exactly I after a (re)start when nothing arrived '
+              'in between (probe_on_idle) and only then (no_probe_while_busy, probes_at_restarts); silence for I+T ends the keeper '
+              'exactly then (dead_peer_dropped); a peer whose PDUs - answers or any other traffic - arrive less than I+T apart is '
+              'never dropped (live_peer_kept, induction over the arrival list). Tied to esme.py by real sessions on a virtual-time '
+              'event loop against a scripted SMSC (answer delays below/above T/never, unsolicited traffic random, periodic just '
+              'below/above I, bursts): every keeper run is compared with the model fed with the observed arrival times, and judged by '
+              'an independent interval predicate. Exact ties of a timer and an arrival in one loop iteration are outside the '
+              'theorems and the comparison (generated, judged by the predicate: a live peer is not dropped). That the supervisor '
+              'reconnects after the keeper returns belongs to C07.'),
+        note=COMMON_NOTE + 'asyncio (sleep/wait/wait_for/Event) and the virtual-time loop of tools/sim/simlib.py are trusted; the model abstracts the keeper to arrival times.',
+        technique='Lean 4 theorems (induction over arrival lists, omega); differential correspondence on a virtual-time event loop with a scripted peer'),
 }
